@@ -11,6 +11,8 @@
 #include <map>
 #include <memory>
 #include <sys/mman.h>
+#include <unistd.h>
+#include <cstring>
 
 #include <openssl/sha.h>
 
@@ -41,12 +43,20 @@ public:
   std::chrono::microseconds next_timeout() override { return 0us; }
 };
 
-torrent::Chunk* create_chunk(uint32_t index, int) {
-  char* mem = (char*)mmap(NULL, 10, PROT_READ | PROT_WRITE, MAP_ANON | MAP_PRIVATE, -1, 0);
-  if (mem == MAP_FAILED) throw torrent::internal_error("mmap");
-  std::memset(mem, index, 10);
+// chunk i is made of 1 + i%3 mapped parts (sizes {10} / {9,1} / {3,6,1}: 1-byte parts and a part boundary one
+// byte before the end), byte j of chunk i = i*7 + j
+const std::vector<std::vector<int>> part_sizes = {{10}, {9, 1}, {3, 6, 1}};
+unsigned char chunk_byte(uint32_t index, int j) { return (unsigned char)(index * 7 + j); }
+
+torrent::Chunk* create_chunk(uint32_t index, int prot) {
   auto* chunk = new torrent::Chunk();
-  chunk->push_back(torrent::ChunkPart::MAPPED_MMAP, torrent::MemoryChunk(mem, mem, mem + 10, torrent::MemoryChunk::prot_read, 0));
+  int   j     = 0;
+  for (int len : part_sizes[index % 3]) {
+    char* mem = (char*)mmap(NULL, len, PROT_READ | PROT_WRITE, MAP_ANON | MAP_PRIVATE, -1, 0);
+    if (mem == MAP_FAILED) throw torrent::internal_error("mmap");
+    for (int k = 0; k < len; k++) mem[k] = chunk_byte(index, j++);
+    chunk->push_back(torrent::ChunkPart::MAPPED_MMAP, torrent::MemoryChunk(mem, mem, mem + len, prot, 0));
+  }
   return chunk;
 }
 
@@ -107,6 +117,13 @@ std::string run_case(const std::string& line) {
   std::string fin;
   {
     Controller ctrl;
+    // chunk_done takes m_done_chunks_lock at a plain schedule point: it is enabled only when the lock is free
+    ctrl.extra_enabled = [hq](int, const char* label) {
+      if (std::strcmp(label, "hq_publish_lock") != 0) return true;
+      if (!hq->m_done_chunks_lock.try_lock()) return false;
+      hq->m_done_chunks_lock.unlock();
+      return true;
+    };
     ctrl.launch(2, [&](int i) {
       torrent::system::Thread* self = i == 0 ? static_cast<torrent::system::Thread*>(main_thread) : disk;
       torrent::system::Thread::m_self = self;
@@ -116,6 +133,10 @@ std::string run_case(const std::string& line) {
           switch (c.kind) {
           case 'P': {
             int  idx    = c.a;
+            // the piece was written before it is hashed: a writable handle was taken and released, so the node
+            // sits in the sync queue while the hash is pending
+            auto wh = chunks->get(idx, torrent::ChunkList::get_flags(torrent::ChunkList::get_writable | torrent::ChunkList::get_not_hashing));
+            chunks->release(&wh, torrent::ChunkList::release_default);
             auto handle = chunks->get(idx, torrent::ChunkList::get_flags(torrent::ChunkList::get_not_hashing | torrent::ChunkList::get_blocking));
             hq->push_back(handle, reinterpret_cast<torrent::HashQueueNode::id_type>(uintptr_t(c.b + 1) * 64),
                           [&, idx, chunks](torrent::ChunkHandle h, const char* hash) {
@@ -124,7 +145,7 @@ std::string run_case(const std::string& line) {
                               outcomes.push_back({idx, "cancel"});
                             } else {
                               unsigned char buf[10], want[20];
-                              std::memset(buf, idx, 10);
+                              for (int j = 0; j < 10; j++) buf[j] = chunk_byte(idx, j);
                               SHA1(buf, 10, want);
                               bool ok = std::memcmp(want, hash, 20) == 0 && (int)h.index() == idx;
                               step_events.push_back(ok ? "G" : "BAD");
@@ -132,13 +153,16 @@ std::string run_case(const std::string& line) {
                             }
                             chunks->release(&h, torrent::ChunkList::release_default);
                           });
+            // a forced sync (session save / memory pressure) while the hash is pending must not unmap the piece
+            chunks->sync_chunks_no_cache(torrent::ChunkList::sync_flags(torrent::ChunkList::sync_all | torrent::ChunkList::sync_force));
             break;
           }
           case 'R': hq->remove(reinterpret_cast<torrent::HashQueueNode::id_type>(uintptr_t(c.a + 1) * 64)); break;
           case 'D': self->process_callbacks(); break;
           }
         }
-      } catch (const torrent::internal_error&) {
+      } catch (const torrent::internal_error& e) {
+        if (getenv("LTV_C18_DEBUG")) fprintf(stderr, "internal_error: %s\n", e.what());
         err = true;
       }
       torrent::system::Thread::m_self = nullptr;
@@ -150,7 +174,9 @@ std::string run_case(const std::string& line) {
       std::string l   = lab ? lab : "";
       if (l.size() > 2 && l[1] == ':') l = l.substr(2);
       step_events.clear();
-      if (ctrl.step(t) != Controller::STEPPED) { out += " " + std::to_string(t) + ":-"; continue; }
+      auto sr = ctrl.step(t);
+      if (sr == Controller::HUNG) { std::cout << "ERR:hang thread " << t << " after " << l << std::endl; _exit(3); }
+      if (sr != Controller::STEPPED) { out += " " + std::to_string(t) + ":-"; continue; }
       out += " " + std::to_string(t) + ":" + l + ":" + state();
       for (size_t i = 0; i < step_events.size(); i++) out += (i ? "+" : ":") + step_events[i];
     }
